@@ -652,7 +652,24 @@ func (m *vestMachine) actions() map[string]func(*rapid.T) {
 		"bankSendSwitch":       func(*rapid.T) { m.actBankSendSwitch() },
 		"setWithdrawAddress":   func(*rapid.T) { m.actSetWithdrawAddress() },
 		"vestingTypeRemoved":   func(*rapid.T) { m.actVestingTypeRemoved() },
+		"oneTransaction":       func(*rapid.T) { m.actOneTransaction() },
 	}
+}
+
+// actOneTransaction: two to four messages at one instant, executed one by one with all their oracles and
+// then delivered once more as ONE signed transaction, which must leave the same state - or, if one of
+// them failed, nothing at all (transaction window, txmode.go).
+func (m *vestMachine) actOneTransaction() {
+	subs := []func(){m.actCreatePool, m.actWithdraw, m.actSend, m.actSend, m.actCreateVestingAccount, m.actSplit}
+	n := rapid.IntRange(2, 4).Draw(m.t, "txMsgs")
+	m.v.BeginTxWindow()
+	defer m.v.AbandonTxWindow() // (a sub-action may give up with t.Skip)
+	m.note("-- one transaction of %d messages begins", n)
+	for i := 0; i < n; i++ {
+		subs[rapid.IntRange(0, len(subs)-1).Draw(m.t, fmt.Sprintf("txMsg%d", i))]()
+	}
+	compared := m.v.EndTxWindow(m)
+	m.note("-- one transaction ends (redelivered as one transaction: %v)", compared)
 }
 
 // otherKindAccounts creates one account of each other vesting kind of x/auth (periodic, delayed,
